@@ -8,6 +8,7 @@ import (
 	"encoding/json"
 	"fmt"
 	"io"
+	"math"
 
 	"github.com/dtn7/cboring"
 )
@@ -43,6 +44,11 @@ func (hcb HopCountBlock) IsExceeded() bool {
 
 // Increment the hop counter and returns if the hop limit is exceeded afterwards.
 func (hcb *HopCountBlock) Increment() bool {
+	// The counter is an 8 bit value: a further hop cannot be counted and always exceeds the limit.
+	if hcb.Count == math.MaxUint8 {
+		return true
+	}
+
 	hcb.Count++
 
 	return hcb.IsExceeded()
